@@ -62,6 +62,15 @@ def run_batch(ctx, n, with_model=True):
         for p in progs:
             envs = [{f: (rng.choice([0, 5, 7]) if t == "int" else rng.choice(["u1", 0, 9, "", None])) for f, t in p.fields.items()} for _ in range(3)]
             cases.append((p, gen.render(p), envs))
+    # corpus: every nesting depth up to what the host language allows, chains of every length up to 70 (both layouts indent differently)
+    def nest(k):
+        inner = ("ret", [(L("leaf"), "1"), (L("leaf2"), "1")])
+        for i in range(k):
+            inner = ("if", ("cmp", ("id", "x"), ">=", ("lit", gen.lit_int(i))), inner, ("else", ("ret", [(L("n%d" % i), "1")])))
+        return gen.Program("deep", None, ["u"], inner, {"u": "any", "x": "int"})
+    for k in (list(range(1, 97)) if ctx.tier == "thorough" else [1, 2, 12, 13, 30, 31, 32, 33, 47, 48, 61, 62, 63, 64, 65, 66, 79, 95, 96]):
+        p = nest(k)
+        cases.append((p, gen.render(p), [{"u": "u1", "x": v} for v in (0, k // 2, k, k + 1)]))
     # corpus: literals that spell a piece of the generated text (banner, import line, signature, call)
     for frag in gen.generated_fragments():
         lit = gen.lit_str(frag, rng)
